@@ -1,7 +1,7 @@
 """C16 - Purging removes exactly the unreachable items."""
 from ..cfgq import (Scope, iter_chain, strip, closure_id_of, closure_env, returned_nodes, elem_prov, value_prov,
                     UnknownTransfer, dominating_conditions, beta, fn_item_of, inline_helper)
-from ..exprs import leaf_name, short_callee, show
+from ..exprs import leaf_name, short_callee, show, walk
 from ..facts import AnalysisError
 from ..mir import callee_name, callee_id, pl_local, pl_proj
 from ..spec.refgraph import REFS
@@ -215,6 +215,25 @@ def local_set_prov(prog, fn, sc, n, depth):
     return {x[:-2] if x.endswith("@Some.0[]") else x for x in out}
 
 
+def restricting_adaptors(prog, fn, node, depth=0):
+    """adaptors in the chain(s) that build a used-id set which drop referring elements: a reference held by ANY element keeps its target, so the set has
+    to be collected from all of them"""
+    RESTRICT = ("filter", "take", "skip", "take_while", "skip_while", "step_by", "nth", "find", "first", "last")
+    n = strip(node)
+    out = []
+    if n[0] == "var":
+        sc = Scope(prog, fn)
+        for d in sc.body.defs().get(n[1], []):
+            v = strip(sc.rvalue(d[3]["rv"])) if d[0] == "st" else strip(sc._rw(sc.eb.call_node(d[2], d[1])))
+            if depth < 3:
+                out += restricting_adaptors(prog, fn, v, depth + 1)
+        return out
+    for x in walk(n):
+        if x[0] == "call" and short_callee(x[1]) in RESTRICT and x[2] and ("iter" in x[1].lower() or "Iterator" in x[1]):
+            out.append(short_callee(x[1]))
+    return out
+
+
 def run_on(ctx, root, rule_prefix="c16", arg="model"):
     prog = ctx.prog
     events = flatten(prog, root)
@@ -272,6 +291,10 @@ def run_on(ctx, root, rule_prefix="c16", arg="model"):
             ctx.violation(rule_prefix + ".used", key.replace(".stage", ".used"), "stage purges model.%s which the reference graph does not list as a referenced collection" % target, loc)
             continue
         problems = []
+        restr = restricting_adaptors(prog, fn, pred[2][0])
+        if restr:
+            problems.append("the ids in use are collected from only some of the referring elements (%s on the way): what the others refer to is removed"
+                            % ", ".join(restr))
         if tested != "%s.%s[].id" % (arg, target):
             problems.append("membership is tested on %s, expected the item's own id" % tested)
         if used != exp:
